@@ -1028,7 +1028,7 @@ class Interp:
     def ev_UnaryOp(self, node, frame):
         v = norm(self.eval(node.operand, frame))
         if isinstance(node.op, ast.USub):
-            if isinstance(v, A.Arr):
+            if isinstance(v, (A.Arr, A.Masked)):
                 return A.unop(sv.neg, v)
             if self.lib.is_lib_value(v):
                 return self.lib.value_binop(self, "*", v, -1)
@@ -1099,7 +1099,7 @@ class Interp:
         o = CMPOPS[type(op)]
         if self.lib.is_lib_value(a) or self.lib.is_lib_value(b):
             return self.lib.value_binop(self, o, a, b)
-        if isinstance(a, (A.Arr,)) or isinstance(b, (A.Arr,)):
+        if isinstance(a, (A.Arr, A.Masked)) or isinstance(b, (A.Arr, A.Masked)):
             if isinstance(a, str) or isinstance(b, str):
                 # numpy dtype comparisons like condition.dtype == "bool" are handled in lib; arrays vs str: elementwise on object arrays unsupported
                 raise EngineError("array compared with string")
